@@ -18,6 +18,8 @@ import Upnp.Lemmas.C14Dev
 import Upnp.Lemmas.C14Bridge
 import Upnp.Lemmas.C14DevBridge
 import Upnp.Props.C05
+import Upnp.Lemmas.C14Call06
+import Upnp.Props.C06
 import Upnp.Gen.C08Types
 namespace Upnp.C14
 open Upnp PyDict
@@ -415,5 +417,34 @@ theorem judge_action_in_mirror (vars : List (C05.VarM F)) (sa : SAct) (m : C05.A
     simp [specOfAct, specOfArg, C05.completeArg, List.filterMap_append, List.filterMap_map, Function.comp_def]
 
 end
+
+/-! ### the call half composed with C06 (request construction) -/
+
+/-- **Request half of `call_roundtrip`, with C06's `createRequest` as the client.**  For every
+    request the merged model of `UpnpAction.create_request` (C06: `validate_arguments`,
+    `_format_request_args`, the escape table and `quoteattr` namespace pinned from client.py in
+    `Gen.C06Types`) builds for an action and keyword arguments — under the codec interface `hagree`
+    (C06 renders for each in-argument the text C14's `out` renders; C06 proves its texts decode back,
+    `arg_text_decodes`; both sides are about to share the C08 type model) — the body reads back, by
+    C06's `body_reads_back`, as the envelope `e`; the `SOAPAction` header is the quoted
+    `serviceType#action`; and the C14 server model, given that header and the tree of `e`, accepts
+    the request, validates it and calls the handler with exactly the caller's typed values
+    (`kwOf`).  Names are XML names (`xmlNameOk`), the service type contains none of `# " }`. -/
+theorem call_request_c06 (O : C06.Oracles) (a : C06.ActionDecl) (kw : C06.Kwargs) (req : C06.Request)
+    (hreq : C06.createRequest O Gen.C06Types.escapeExtra Gen.C06Types.nsAttrQuoted a kw = .ok req)
+    (fs : Facts) (stype : Str) (sacts : List SAct) (sact : SAct) (args : List (Str × Val))
+    (ha : a.name = sact.name) (hst : a.serviceType = stype)
+    (hagree : C06.coerceArgs a.inArgs kw = .ok (sact.ins.map fun x => (x.name, out (argVal args x))))
+    (hxn : C06.xmlNameOk sact.name = true) (hxa : ∀ x ∈ sact.ins, C06.xmlNameOk x.name = true)
+    (hbr : '}' ∉ stype)
+    (h1 : '#' ∉ stype) (h2 : '"' ∉ stype) (h3 : '#' ∉ sact.name) (h4 : '"' ∉ sact.name)
+    (hfind : sacts.find? (fun x => x.name = sact.name) = some sact)
+    (hnd : (sact.ins.map (·.name)).Nodup) (hok : ArgsOk fs args sact.ins) :
+    ∃ e, C06.readEnvelope req.body = some e
+      ∧ req.headers.lookup "SOAPAction".toList = some ('"' :: stype ++ '#' :: sact.name ++ ['"'])
+      ∧ handlerInput fs sacts ⟨some ('"' :: stype ++ '#' :: sact.name ++ ['"']), some (y06 e.tree)⟩
+          = some (sact.name, kwOf args sact) :=
+  c06_request_reaches_handler O a kw req _ _ (fun name st args hn hargs => C06.body_reads_back name st args hn hargs)
+    hreq fs stype sacts sact args ha hst hagree hxn hxa hbr h1 h2 h3 h4 hfind hnd hok
 
 end Upnp.C14
